@@ -171,16 +171,16 @@ Lemma incr_app l1 l2 : incr l1 -> incr l2 -> (forall x y, In x l1 -> In y l2 -> 
 Proof.
   intros H1 H2 H. induction l1 as [|a l1 IH]; cbn [app]; [assumption|].
   apply StronglySorted_inv in H1 as [H1 F1]. constructor.
-  - apply IH; auto. intros; apply H; [right|]; assumption.
-  - rewrite Forall_forall in *. intros x Hx. apply in_app_iff in Hx as [Hx|Hx]; [auto|].
+  - apply IH; [exact H1|]. intros; apply H; [right|]; assumption.
+  - apply Forall_forall. rewrite Forall_forall in F1. intros x Hx. apply in_app_iff in Hx as [Hx|Hx]; [auto|].
     apply H; [left; reflexivity | assumption].
 Qed.
 
 Lemma incr_filter p l : incr l -> incr (filter p l).
 Proof.
   intros H; induction l as [|a l IH]; cbn [filter]; [constructor|].
-  apply StronglySorted_inv in H as [H F]. destruct (p a); [|auto]. constructor; [auto|].
-  rewrite Forall_forall in *. intros x Hx. apply filter_In in Hx as [Hx _]. auto.
+  apply StronglySorted_inv in H as [H F]. destruct (p a); [|apply IH; exact H]. constructor; [apply IH; exact H|].
+  apply Forall_forall. intros x Hx. rewrite Forall_forall in F. apply filter_In in Hx as [Hx _]. auto.
 Qed.
 
 Lemma incr_flatten lo hi rs : sorted_in lo hi rs -> incr (flatten rs).
@@ -192,12 +192,22 @@ Proof.
   - intros x y Hx Hy. apply in_flat_range in Hx. pose proof (sorted_in_bounds _ _ _ _ H3 Hy). lia.
 Qed.
 
+Lemma in_firstn_in {A} k (l : list A) x : In x (firstn k l) -> In x l.
+Proof.
+  revert l; induction k as [|k IH]; intros l; [cbn; tauto|]. destruct l as [|a l]; cbn [firstn In]; [tauto|].
+  intros [->|H]; [left; reflexivity | right; apply IH; exact H].
+Qed.
+Lemma in_skipn_in {A} k (l : list A) x : In x (skipn k l) -> In x l.
+Proof.
+  revert l; induction k as [|k IH]; intros l; [cbn; tauto|]. destruct l as [|a l]; cbn [skipn In]; [tauto|].
+  intros H; right; apply IH; exact H.
+Qed.
+
 Lemma incr_firstn k l : incr l -> incr (firstn k l).
 Proof.
   revert l; induction k as [|k IH]; intros l H; [constructor|]. destruct l as [|a l]; [constructor|].
-  cbn [firstn]. apply StronglySorted_inv in H as [H F]. constructor; [auto|].
-  rewrite Forall_forall in *. intros x Hx. apply F. eapply In_firstn; eauto using firstn_In.
-  apply firstn_In in Hx. exact Hx.
+  cbn [firstn]. apply StronglySorted_inv in H as [H F]. constructor; [apply IH; exact H|].
+  apply Forall_forall. rewrite Forall_forall in F. intros x Hx. apply F. apply in_firstn_in in Hx. exact Hx.
 Qed.
 
 (* ------------------------------------------------------------------ sum_rows *)
